@@ -24,6 +24,7 @@ type c01Op struct {
 	Stable uint32 `json:"stable,omitempty"`
 	Size   uint64 `json:"size,omitempty"`
 	HasSz  bool   `json:"has_size,omitempty"`
+	How    uint32 `json:"createmode,omitempty"` // CREATE: 0 UNCHECKED, 1 GUARDED, 2 EXCLUSIVE
 }
 
 type c01Cfg struct {
@@ -146,7 +147,11 @@ func (s *c01State) apply(op c01Op, check bool, hist []c01Op) {
 		if op.HasSz {
 			sat.Size = wire.U64p(op.Size)
 		}
-		a.FH(s.root).Str(op.File).U32(0).Sattr(sat)
+		if op.How == 2 {
+			a.FH(s.root).Str(op.File).U32(2).Raw([]byte("verifier"))
+		} else {
+			a.FH(s.root).Str(op.File).U32(op.How).Sattr(sat)
+		}
 		res, _, err = s.e.nfsCall(wire.CREATE, a.B)
 	}
 	if err != nil || res == nil {
@@ -195,7 +200,8 @@ func (s *c01State) apply(op c01Op, check bool, hist []c01Op) {
 		}
 	case "create":
 		// UNCHECKED create of an existing file: unchanged, or resized to exactly the explicit size
-		if op.HasSz && res.Status == 0 && uint64(len(got)) == op.Size && !bytes.Equal(got, m) {
+		// (GUARDED and EXCLUSIVE creates of an existing file never change it, whatever they reply)
+		if op.How == 0 && op.HasSz && res.Status == 0 && uint64(len(got)) == op.Size && !bytes.Equal(got, m) {
 			for uint64(len(want)) < op.Size {
 				want = append(want, 0)
 			}
@@ -300,7 +306,8 @@ func c01Ops(T int) []c01Op {
 		ops = append(ops, c01Op{Kind: "setsize", File: "f", Size: sz})
 	}
 	ops = append(ops, c01Op{Kind: "setsize", File: "g", Size: 1})
-	ops = append(ops, c01Op{Kind: "create", File: "f"}, c01Op{Kind: "create", File: "f", HasSz: true, Size: 0}, c01Op{Kind: "create", File: "f", HasSz: true, Size: 3})
+	ops = append(ops, c01Op{Kind: "create", File: "f"}, c01Op{Kind: "create", File: "f", HasSz: true, Size: 0}, c01Op{Kind: "create", File: "f", HasSz: true, Size: 3},
+		c01Op{Kind: "create", File: "f", How: 1}, c01Op{Kind: "create", File: "f", How: 1, HasSz: true, Size: 0}, c01Op{Kind: "create", File: "f", How: 2})
 	return ops
 }
 
@@ -308,7 +315,7 @@ func init() {
 	vRegister(&vCheck{
 		id: "C01", level: "model_checking", flavour: "vtime",
 		shards: func(string) int { return 16 },
-		rule: "breadth-first search over histories of WRITE(off in {0,1,3,T-1,T,T+1,2^63-2,2^63,2^64-1} x len in {0,1,3,T-1,T,T+1}, stable_how), SETATTR(size in {0,1,5,T+2,2^63}) and UNCHECKED CREATE of the existing name (without size, size 0, size 3) on two files, for TransferSize T in {4,8} and attribute-cache TTL in {1ns,5s,1h} (virtual clock, +1s per request); depth 3 (thorough 4), states deduplicated on (bytes of both files, attribute-cache and handle-node sizes). After every transition the backend bytes are compared with a byte-array model; every new state is observed with READ(off,count) for every off in [0,size+2] and {2^63-1,2^63,2^64-1} x count in {0,1,2,T-1,T,T+1,2^32-1} on both files: data, count = min(requested,T,size-off), eof and post-op size.",
+		rule: "breadth-first search over histories of WRITE(off in {0,1,3,T-1,T,T+1,2^63-2,2^63,2^64-1} x len in {0,1,3,T-1,T,T+1}, stable_how), SETATTR(size in {0,1,5,T+2,2^63}) and CREATE of the existing name (UNCHECKED without size / size 0 / size 3, GUARDED without size / size 0, EXCLUSIVE) on two files, for TransferSize T in {4,8} and attribute-cache TTL in {1ns,5s,1h} (virtual clock, +1s per request); depth 3 (thorough 4), states deduplicated on (bytes of both files, attribute-cache and handle-node sizes). After every transition the backend bytes are compared with a byte-array model; every new state is observed with READ(off,count) for every off in [0,size+2] and {2^63-1,2^63,2^64-1} x count in {0,1,2,T-1,T,T+1,2^32-1} on both files: data, count = min(requested,T,size-off), eof and post-op size.",
 		assumptions: []string{"a WRITE longer than the transfer size may be refused or stored partially (judged by C23)", "offsets that are not representable as int64 file offsets must fail and leave the file unchanged", "the recording backend refuses sizes above 1 MiB"},
 		run: func(c *vCtx) {
 			depth := 3
